@@ -84,7 +84,13 @@ def run(sid, checks, tier):
         if rc != 0:
             print("patch does not apply:", out); return 2
         os.makedirs(vr)
-        sh("rsync -a --exclude .git --exclude .work --exclude replays --exclude evidence --exclude seeded %s/ %s/" % (ROOT, vr))
+        if os.environ.get("VERIF_FROM_HEAD") == "1":
+            # committed state only (other people may be editing the working tree)
+            sh("git -C %s archive HEAD | tar -x -C %s --exclude=seeded --exclude=evidence --exclude=replays" % (ROOT, vr))
+        else:
+            sh("rsync -a --exclude .git --exclude .work --exclude replays --exclude evidence --exclude seeded %s/ %s/" % (ROOT, vr))
+        os.makedirs(os.path.join(vr, "evidence"), exist_ok=True)
+        os.makedirs(os.path.join(vr, "replays"), exist_ok=True)
         gm = os.path.join(vr, "harness", "go.mod")
         txt = open(gm).read().replace("=> /repo", "=> " + wt)
         open(gm, "w").write(txt)
